@@ -21,7 +21,8 @@ pub static ALIGN: Roundtrip = Roundtrip { mode: Mode::C17 };
 pub static ZIP64: Roundtrip = Roundtrip { mode: Mode::C08 };
 pub static CHUNKING: chunk::Chunking = chunk::Chunking;
 pub static IOFAULT: iofault::IoFault = iofault::IoFault;
-pub static HOSTILE: hostile::Hostile = hostile::Hostile;
+pub static HOSTILE: hostile::Hostile = hostile::Hostile { crc: false };
+pub static HOSTILE_CRC: hostile::Hostile = hostile::Hostile { crc: true };
 pub static FOREIGN: foreign::Foreign = foreign::Foreign { z64: false };
 pub static FOREIGN_Z64: foreign::Foreign = foreign::Foreign { z64: true };
 pub static STREAM: stream::Stream = stream::Stream;
@@ -33,7 +34,7 @@ pub static AES: crypt::AesSc = crypt::AesSc;
 pub static ZIPCRYPTO: crypt::ZipCryptoSc = crypt::ZipCryptoSc;
 
 pub fn all() -> Vec<&'static dyn Scenario> {
-    vec![&ROUNDTRIP, &ROUNDTRIP_FULL, &STATEMACHINE, &APPEND, &RAWCOPY, &ALIGN, &ZIP64, &CHUNKING, &IOFAULT, &HOSTILE, &BITROT, &AES, &ZIPCRYPTO, &FOREIGN, &FOREIGN_Z64, &STREAM, &EXTRACT, &CLONES, &CLONES_SHUTTLE]
+    vec![&ROUNDTRIP, &ROUNDTRIP_FULL, &STATEMACHINE, &APPEND, &RAWCOPY, &ALIGN, &ZIP64, &CHUNKING, &IOFAULT, &HOSTILE, &HOSTILE_CRC, &BITROT, &AES, &ZIPCRYPTO, &FOREIGN, &FOREIGN_Z64, &STREAM, &EXTRACT, &CLONES, &CLONES_SHUTTLE]
 }
 
 pub fn lookup(name: &str) -> Option<&'static dyn Scenario> {
@@ -55,7 +56,7 @@ pub fn props() -> Vec<PropCfg> {
         PropCfg { id: "C01", level: "exploration", scenarios: vec![&ROUNDTRIP], assumptions: vec![A_MODEL, A_CODEC] },
         PropCfg { id: "C02", level: "exploration", scenarios: vec![&ROUNDTRIP_FULL], assumptions: vec!["independent parser written from APPNOTE is the judge", A_CODEC, "literal 0xFFFF/0xFFFFFFFF without ZIP64 accepted"] },
         PropCfg { id: "C03", level: "exploration", scenarios: vec![&FOREIGN], assumptions: vec![A_CODEC, "the independent builder's own record of what it wrote is the oracle; CP437 decoding uses the harness's own table", "format-ambiguous layouts (signature bytes at the probe positions) are skipped and counted (R2)"] },
-        PropCfg { id: "C04", level: "fault_enumeration", scenarios: vec![&BITROT], assumptions: vec![A_CODEC, "own CRC-32 implementation recomputes the checksum of the returned bytes", "AE-2 entries are exempt (covered by C16)"] },
+        PropCfg { id: "C04", level: "fault_enumeration", scenarios: vec![&BITROT, &HOSTILE_CRC], assumptions: vec![A_CODEC, "own CRC-32 implementation recomputes the checksum of the returned bytes", "AE-2 entries are exempt (covered by C16)"] },
         PropCfg { id: "C05", level: "exploration", scenarios: vec![&HOSTILE], assumptions: vec!["heap bound while opening: 1024 x input length + 8 MiB, measured by a counting global allocator (R9)", "step budget 4M + 16 x length I/O calls per handle; a wall-clock watchdog covers loops that perform no I/O", "harness built with overflow-checks and debug-assertions on"] },
         PropCfg { id: "C07", level: "exploration", scenarios: vec![&EXTRACT], assumptions: vec!["the sink is the real kernel file system, confined to a fresh sandbox under /verif/target/sandbox whose whole tree outside the target is snapshotted (path, type, size, mode, mtime, content hash) before and after", "generated '..' chains are at most 14 long and absolute names point into the sandbox's canary directory, so even a real escape cannot leave the sandbox", "host path semantics are Unix", A_CODEC] },
         PropCfg { id: "C08", level: "exploration", scenarios: vec![&ZIP64, &FOREIGN_Z64], assumptions: vec![A_MODEL, A_CODEC, "sizes and offsets beyond 2^32 are realised on a sparse simulated disk (zero pages are not stored); huge payloads are zeros with marker bytes every 64 MiB and at the end"] },
